@@ -84,5 +84,6 @@ Record alltables := mkall {
   a_main : tables;
   a_subtrans : list (N * list (N * N));                 (* state -> within-word id -> state *)
   a_csub : list (list (N * list N));                    (* level -> state -> within-word ids *)
-  a_subwords : list (N * N * tables)                    (* (pool index, script id, tables) *)
+  a_subwords : list (N * N * tables);                   (* (pool index, script id, tables) *)
+  a_subaccepting : list (N * list N)                    (* script id -> accepting states of that within-word automaton (+ array base) *)
 }.
